@@ -686,14 +686,24 @@ pub fn special_scenario(rng: &mut Rng) -> Option<(Board, Vec<ChessMove>)> {
             if rng.chance(1, 3) {
                 let psq = sqi(rk(3), af) as i32;
                 let dirs = [(0, 1), (1, 0), (0, -1), (-1, 0), (1, 1), (1, -1), (-1, 1), (-1, -1)];
-                let di = rng.below(8);
-                let (dr, df) = dirs[di];
+                let mut di = rng.below(8);
+                let (mut dr, mut df) = dirs[di];
+                // half of the time the pin runs along the CAPTURE diagonal (capturing pawn - passed-over square): the
+                // en-passant capture then stays on the pin line and is legal although the pawn is pinned
+                if rng.chance(1, 2) {
+                    let sgn = if rng.chance(1, 2) { 1 } else { -1 };
+                    dr = sgn * (rk(2) as i32 - rk(3) as i32);
+                    df = sgn * (f as i32 - af as i32);
+                    di = 4;
+                }
                 let (kd, sd) = (1 + rng.below(3) as i32, 1 + rng.below(3) as i32);
                 let (kr, kf) = (psq / 8 + dr * kd, psq % 8 + df * kd);
                 let (sr, sf) = (psq / 8 - dr * sd, psq % 8 - df * sd);
                 if kr >= 0 && kr < 8 && kf >= 0 && kf < 8 && sr >= 0 && sr < 8 && sf >= 0 && sf < 8 {
                     let (ks, ss) = ((kr * 8 + kf) as usize, (sr * 8 + sf) as usize);
-                    if d.sq[ss].is_none() && (d.sq[ks].is_none() || d.sq[ks] == Some((Piece::King, o))) {
+                    // the pusher's path (the two squares in front of the pawn) stays free
+                    let on_path = |x: usize| x == sqi(rk(2), f) || x == sqi(rk(3), f);
+                    if !on_path(ks) && !on_path(ss) && d.sq[ss].is_none() && (d.sq[ks].is_none() || d.sq[ks] == Some((Piece::King, o))) {
                         // move o's king there (remove the old one)
                         for i in 0..64 { if d.sq[i] == Some((Piece::King, o)) { d.sq[i] = None; } }
                         d.sq[ks] = Some((Piece::King, o));
